@@ -81,6 +81,10 @@ func (ctx *Ctx) cloop(node *node, tpl *Tpl, w io.Writer) {
 		ctx.chQB = chQB
 		if err != nil && err != ErrBreakLoop && err != ErrContLoop {
 			// Any other error (including interrupt signal) must reach the caller.
+			// The loop ends here: it is one of the loops a pending break depth counts (lazybreak followed by exit).
+			if ctx.brkD > 0 {
+				ctx.brkD--
+			}
 			ctx.Err = err
 			return
 		}
